@@ -39,6 +39,20 @@ def generate(tier, seed):
                     steps = ["EE:0"] + steps[:8] + ["EE:1"] + steps
                 cases.append(case("eng", sp, adapter_M(lines), "-", steps))
                 n += 1
+                # now and then a MALFORMED stored rule (a column too many / too few) at some position among the well-formed
+                # ones, the same under both types: both entry points reach it - or stop before it - at the same rule
+                if rs and n % 6 == 1:
+                    bad = rnd.choice([rs[0] + ["extra"], rs[0][:-1], rs[0] + ["x", "y"]])
+                    for pos in range(len(rs) + 1):
+                        rs2 = [list(r) for r in rs]
+                        rs2.insert(pos, bad)
+                        lines2 = [["p", "p"] + r for r in rs2] + [["p", "p" + k] + r for r in rs2] + [["g", gk] + l for gk, l in ls]
+                        steps2 = []
+                        for r in reqs:
+                            steps2.append(Q_ec(k, r))
+                            steps2.append(Q_e(r))
+                        cases.append(case("eng", sp, adapter_M(lines2), "-", steps2))
+                        dist["malformed_rule"] = dist.get("malformed_rule", 0) + 1
             dist["%s/%s" % (name, k)] = n
     return {
         "cases": cases,
